@@ -24,7 +24,7 @@ func init() {
 }
 
 func C10Params(thorough bool) harness.GenParams {
-	p := harness.GenParams{MaxItems: 8, MaxOps: 8, MaxPages: 640, Probe: true, BigAllocs: true, Shapes: true, SmallPages: true}
+	p := harness.GenParams{MaxItems: 8, MaxOps: 8, MaxPages: 640, Probe: true, BigAllocs: true, Shapes: true, SmallPages: true, Overflow: true}
 	if thorough {
 		p.MaxItems, p.MaxOps, p.SmallPages = 16, 12, false
 	}
